@@ -33,12 +33,12 @@ CLAIMED = {
             '6/C16'),
 
 
-    'C02': ('TLA+ model of Container slice construction, the Analysis.run loop and the batch-size rule (Analysis.tla, BatchRule.tla) model-checked by TLC for every set size / batch size / 1-3 runs; '
+    'C02': ('TLA+ model of Container slice construction, the Analysis.run loop, what a Container feeds for a trace and the batch-size rule (Analysis.tla, ContainerFeed.tla, BatchRule.tla) model-checked by TLC for every set size / batch size / 1-3 runs; '
             'generated behaviours executed through the public Container/Attack/Reverse API with recorded feeds compared to the specification',
             'TLC proves on the bounded domain that the batches tile the trace set in order (tail batch, one-trace tail, sets smaller than a batch), and refutes slice variants that drop or repeat a trace; '
             'each behaviour is run on the 12 analysis classes with frames and preprocess chains: ids, arrays handed to update, compute points, bit-identical one-shot results, scores = discriminant(results), '
             'accumulation over repeated runs; Container.batch_size equals the specified rule at every table threshold and MB setting.',
-            'Exact regime (integer samples); expected arrays evaluated with the public preprocess/model/selection callables; frame=int outside the quantifier.', '6/C02'),
+            'Exact regime (integer samples); the arrays update receives are compared with the feed TLC derives (ContainerFeed.tla: frame first, then the chain; the reverse order refuted on the replayed cases); every generated behaviour is also executed on one cheap class (no sampling of the run-loop arithmetic); frame=int outside the quantifier.', '6/C02'),
     'C05': ('TLA+ specification of AES from FIPS-197 first principles (AES.tla) run as a step machine (AESRun.tla: one transition per round operation, encrypt then decrypt), structural model of the '
             'stop-point construction (AESStops.tla, exhaustive over 312 stop points, off-by-one variant refuted), single operations (AESOps.tla), trace validation of recorded stop-point sequences (AESTrace.tla)',
             'TLC reproduces FIPS-197 Appendix C.1-C.3 and A.1, checks decrypt(encrypt(x)) = x and inverse operations on every visited state; every behaviour trail is compared with the real encrypt/decrypt at every '
@@ -56,7 +56,7 @@ CLAIMED = {
     'C08': ('TLA+ model of the convergence bookkeeping inside the run loop (Analysis.tla) model-checked by TLC for every (set sizes, batch size, step, runs) in the bound; generated behaviours executed on real attacks',
             'TLC checks strictly increasing points, in-loop spacing >= step, remainder only as last of a run, last point = processed, columns taken at fresh computes; each behaviour is executed on CPA/DPA/ANOVA/NICV/SNR/MIA '
             'attacks: positions equal the specification, every column bit-identical to fresh prefix scores, last column = final scores, results/scores identical without convergence.',
-            'Exact regime; spacing clause read per run as in DESIGN 6/C08.', '6/C08'),
+            'Exact regime; observed convergence points of every generated behaviour are judged by the property alone (AnalysisTrace.tla; final remainder = last point of a run closer than one step to its predecessor, the same formula checked on the mechanism model as OrdinarySpacing); template attacks included.', '6/C08'),
     'C03': ('TLA+ definitions (Stats.tla) enumerated exhaustively by TLC over small observation domains (StatsEnum.tla) with K=P lemmas; every '
             'enumerated state and driver-proposed multi-dimensional datasets (StatsCases.tla) replayed on the real CPA/CPA-alternative/DPA distinguishers',
             'TLC enumerates every multiset of 2..4(5) observations over a 4x4 grid and checks in each state that two formulations of Pearson agree, |r|<=1, the '
@@ -71,7 +71,7 @@ CLAIMED = {
             '(both precisions); 3..12 declared classes and automatic class sets with maxima in every threshold range are compared against exact rationals.',
             'Exact rational definitions; float comparison within 64 eps x cancellation factor; LUT builder memoised.', '6/C04'),
     'C09': ('TLA+ model of TTestAnalysis.run with the main thread and the two accumulator threads at statement-group granularity (TTest.tla: all interleavings, injected failures, liveness under weak fairness, shared-accumulator variant refuted); '
-            'Welch certificates in exact rationals (TTestCases.tla); every TLC-generated batch-level schedule replayed deterministically on the real TTestAnalysis through a gate preprocess',
+            'Welch certificates in exact rationals (TTestCases.tla, with the replication lemma used for very large batches); runs of different sizes (NB, NB2); every TLC-generated batch-level schedule replayed deterministically on the real TTestAnalysis through a gate preprocess',
             'TLC proves termination, raises-iff-failed, no torn read of an accumulator, result from all batches of all runs for every interleaving with <= 3 batches per set, 2 runs and a failure at every position; each distinct schedule is '
             'forced on the real threads (order confirmed by the gate log): result, counts and exception propagation are compared with the exact Welch value; free-running runs with random delays and thread counts.',
             'Interleavings inside the numba kernel are not controllable (disjoint accumulators shown on the model); sqrt evaluated in Python on exact certificates.', '6/C09'),
@@ -103,7 +103,7 @@ CLAIMED = {
             'For each driver-proposed building/matching set TLC checks PSD, A P A = A, P A P = P and that the code-shaped formulas equal the definitions (pinned single-trace rule refuted); '
             'templates, pooled covariance, pseudo-inverse and static / DPA scores of the real attacks (several batch sizes, both precisions, class lists with gaps) equal the exact rationals; '
             'run before build refused.',
-            'Trace length <= 2 (exact pseudo-inverse); covariance/scores claimed when every declared class has >= 2 building traces; building sets are sampled, not enumerated.', '6/C14'),
+            'Trace length <= 2 (exact pseudo-inverse); ScalingLemma (TLC) carries exactly-evaluated cases to samples of very different magnitude; profiles built in two steps; covariance/scores claimed when every declared class has >= 2 building traces; building sets are sampled, not enumerated.', '6/C14'),
     'C17': ('TLA+ pipeline specification (PipelineAES.tla, PipelineDES.tla on top of the selection-function theorem of C07 and the FIPS key schedules): intermediate under the true key, leakage model, bounded noise, '
             'trace matrix and identifiability of the true key among the offered guesses, all computed / checked by TLC; the emitted traces are attacked through the public Container / selection function / model / discriminant / Attack pipeline',
             'For each key x selection function x attack class x batch size TLC emits the simulated traces and proves that no wrong guess is indistinguishable from the true key on that input set; CPA, DPA, ANOVA, NICV, SNR, MIA and '
@@ -119,7 +119,7 @@ CLAIMED = {
             'find_peaks judged by TLC (SigPeaksV.tla); windowed moments, pattern scores and width runs enumerated by TLC (SigEnum.tla) and compared with the real helpers',
             'TLC checks the repaired scan against ValidPeaks and isolated-maximum retention on every signal of length <= 7 over 3 values and <= 9 over 2 values x distances x heights; every output of the real find_peaks on '
             'those signals and on random longer ones is accepted or rejected by TLC itself; moving sum/mean/var/std/skew/kurtosis on every window of every small signal (1-D and along every axis of 3-D arrays), '
-            'per-window Pearson / distance / BCDC for every pattern, find_width for all directions/thresholds/bounds, pad and extract index maps.',
+            'per-window Pearson / distance / BCDC for every pattern, find_width for all directions/thresholds/bounds, pad and extract_around_indexes index maps from SigIndex.tla (indexes in every integer dtype).',
             'sqrt and powers evaluated in Python on exact rationals; zero-variance windows not compared; Butterworth and fft outside the property.', '6/C19'),
     'C20': ('TLA+ model of the Synchronizer.run loop with a nondeterministic accept/raise/None user function (Synchronizer.tla) model-checked by TLC over every script in the bound; every script executed on a real Synchronizer',
             'TLC checks for every script of length <= 8(9) that the output is the accepted subsequence in input order, counters match (incl. all rejected), a second run changes nothing; a wrong write index is refuted. '
